@@ -145,6 +145,14 @@ class AORun(object):
         self.stops.append(rec)
         chart.stop()
         rec['end'] = self.sim.seq
+      elif op == 'stop_other':
+        # a handler of this object stops another active object (a supervisor shutting down a worker): for the
+        # other object this is a stop() from another thread
+        b = self.sim.record('ao', 'op', 'begin', ('other-object', 'stop'))
+        rec = {'obj': f['target'], 'begin': b, 'end': None, 'from': 'other-object'}
+        self.stops.append(rec)
+        self.objs[f['target']].stop()
+        rec['end'] = self.sim.seq
     except kernel.SimAbort:
       raise
     except BaseException as ex:  # noqa
